@@ -43,3 +43,23 @@ Definition gr_run (g : groles) (ops : list (Z * gc_args * Z)) : groles := fold_l
 
 Definition role_keys (g : groles) : list Z :=
   [gr_admin g; gr_emode g; gr_curve g; gr_limit g; gr_emissions g; gr_metadata g; gr_risk g].
+
+(* ---------------------------------------------------------------- fixture and trace of the correspondence (suite `roles`),
+   also evaluated inside Coq on sampled cases *)
+Inductive gr_op := GOConfigure (signer : Z) (a : gc_args) | GOProbe (r : grole) (signer : Z) | GOTick (dt : Z).
+Definition gr_err_code (e : err) : Z := match e with EPanic => -1 | ENone => -2 | E c => c end.
+Definition gr_obs (g : groles) : list Z := role_keys g ++ [cap_init (gr_caps g); cap_maint (gr_caps g); gr_fee_last g].
+Fixpoint gr_trace (g : groles) (now : Z) (ops : list gr_op) : list (list Z) :=
+  match ops with
+  | [] => []
+  | GOConfigure s a :: r =>
+      match ix_group_configure g s a now with
+      | Ok g' => (0 :: gr_obs g') :: gr_trace g' now r
+      | Err e => (gr_err_code e :: gr_obs g) :: gr_trace g now r
+      end
+  | GOProbe ro s :: r => [if role_accepts g ro s then 1 else 0] :: gr_trace g now r
+  | GOTick dt :: r => [0] :: gr_trace g (now + dt) r
+  end.
+(* mk_group: every role held by wallet 1, default leverage caps *)
+Definition gr_fixture (t0 : Z) : res groles :=
+  let* c := ix_group_set_caps None None in Ok (mkGR 1 1 1 1 1 1 1 c t0).
